@@ -21,8 +21,11 @@ grammar exactly (optional `-`, digits with optional `.`, `.digits` after a sign,
 optional exponent, the "no conversion" case of a lone `-`, hexadecimal floats,
 `-inf` / `-nan`).  The *value* is modelled exactly whenever the decimal denotes
 an integer of magnitude ≤ 2^53 or a dyadic fraction `q / 2^k` with `q` ≤ 2^53,
-`k` ≤ 1000; every other spelling (`0.1`, `1e400`, `9007199254740993`) yields the
-third outcome `Res.unsup` for the whole document.  `-0` is identified with `0`.
+`k` ≤ 1000; every other spelling (`0.1`, `1e400`, `9007199254740993`) is kept as
+`Json.numberX spelling` — the grammar (accept / reject) is still followed, only
+the value is not computed — and `parse` then reports the third outcome
+`Res.unsup` for the whole document (parson may even refuse such a document:
+`ERANGE` overflow).  `-0` is identified with `0`.
 -/
 namespace Ovni.Json
 
@@ -32,6 +35,8 @@ inductive Json where
   | null
   | bool (b : Bool)
   | number (n : Int) (k : Nat)
+  /-- a number whose value the model does not compute; the consumed spelling is kept -/
+  | numberX (spelling : List Nat)
   | string (s : List Nat)
   | array (items : List Json)
   | object (members : List (List Nat × Json))
@@ -46,6 +51,7 @@ def Json.beq : Json → Json → Bool
   | .null, .null => true
   | .bool a, .bool b => a == b
   | .number a i, .number b j => a == b && i == j
+  | .numberX a, .numberX b => a == b
   | .string a, .string b => a == b
   | .array a, .array b => Json.beqList a b
   | .object a, .object b => Json.beqMembers a b
@@ -60,27 +66,46 @@ def Json.beqMembers : Members → Members → Bool
   | _, _ => false
 end
 
+/-- constructor index, to dispose of the mixed cases of `beq` at once -/
+def Json.tag : Json → Nat
+  | .null => 0 | .bool _ => 1 | .number _ _ => 2 | .numberX _ => 3 | .string _ => 4 | .array _ => 5 | .object _ => 6
+
+theorem Json.beq_tag : ∀ (a b : Json), Json.beq a b = true → a.tag = b.tag := by
+  intro a b h
+  cases a <;> cases b <;> first | rfl | (simp [Json.beq] at h)
+
 mutual
 theorem Json.beq_eq : ∀ (a b : Json), Json.beq a b = true → a = b
-  | .null, .null, _ => rfl
-  | .bool a, .bool b, h => by simp only [Json.beq, beq_iff_eq] at h; rw [h]
-  | .number a i, .number b j, h => by
+  | .null, b, h => by
+    have := Json.beq_tag _ _ h
+    cases b <;> simp [Json.tag] at this
+    rfl
+  | .bool a, b, h => by
+    have := Json.beq_tag _ _ h
+    cases b <;> simp [Json.tag] at this
+    simp only [Json.beq, beq_iff_eq] at h; rw [h]
+  | .number a i, b, h => by
+    have := Json.beq_tag _ _ h
+    cases b <;> simp [Json.tag] at this
     simp only [Json.beq, Bool.and_eq_true, beq_iff_eq] at h; rw [h.1, h.2]
-  | .string a, .string b, h => by simp only [Json.beq, beq_iff_eq] at h; rw [h]
-  | .array a, .array b, h => by
+  | .numberX a, b, h => by
+    have := Json.beq_tag _ _ h
+    cases b <;> simp [Json.tag] at this
+    simp only [Json.beq, beq_iff_eq] at h; rw [h]
+  | .string a, b, h => by
+    have := Json.beq_tag _ _ h
+    cases b <;> simp [Json.tag] at this
+    simp only [Json.beq, beq_iff_eq] at h; rw [h]
+  | .array a, b, h => by
+    have := Json.beq_tag _ _ h
+    cases b <;> simp [Json.tag] at this
+    rename_i b
     simp only [Json.beq] at h; rw [Json.beqList_eq a b h]
-  | .object a, .object b, h => by
+  | .object a, b, h => by
+    have := Json.beq_tag _ _ h
+    cases b <;> simp [Json.tag] at this
+    rename_i b
     simp only [Json.beq] at h; rw [Json.beqMembers_eq a b h]
-  | .null, .bool _, h | .null, .number _ _, h | .null, .string _, h | .null, .array _, h | .null, .object _, h
-  | .bool _, .null, h | .bool _, .number _ _, h | .bool _, .string _, h | .bool _, .array _, h | .bool _, .object _, h
-  | .number _ _, .null, h | .number _ _, .bool _, h | .number _ _, .string _, h | .number _ _, .array _, h
-  | .number _ _, .object _, h
-  | .string _, .null, h | .string _, .bool _, h | .string _, .number _ _, h | .string _, .array _, h
-  | .string _, .object _, h
-  | .array _, .null, h | .array _, .bool _, h | .array _, .number _ _, h | .array _, .string _, h
-  | .array _, .object _, h
-  | .object _, .null, h | .object _, .bool _, h | .object _, .number _ _, h | .object _, .string _, h
-  | .object _, .array _, h => by simp [Json.beq] at h
 theorem Json.beqList_eq : ∀ (a b : List Json), Json.beqList a b = true → a = b
   | [], [], _ => rfl
   | a :: as, b :: bs, h => by
@@ -100,6 +125,7 @@ theorem Json.beq_refl : ∀ (a : Json), Json.beq a a = true
   | .null => rfl
   | .bool _ => by simp [Json.beq]
   | .number _ _ => by simp [Json.beq]
+  | .numberX _ => by simp [Json.beq]
   | .string _ => by simp [Json.beq]
   | .array a => by simp only [Json.beq]; exact Json.beqList_refl a
   | .object a => by simp only [Json.beq]; exact Json.beqMembers_refl a
@@ -116,9 +142,10 @@ instance : DecidableEq Json := fun a b =>
   if h : Json.beq a b = true then isTrue (Json.beq_eq a b h)
   else isFalse (fun e => h (e ▸ Json.beq_refl a))
 
-/-- Outcome of the parser: a value, NULL (`fail`), a number spelling whose
-    value the model does not compute (`unsup`), or not enough fuel (`oof`; never
-    the case with the fuel `parse` supplies — `Props/Json.parse_total`). -/
+/-- Outcome of the parser: a value, NULL (`fail`), a document holding a number
+    whose value the model does not compute (`unsup`, produced by `parse` only),
+    or not enough fuel (`oof`; never the case with the fuel `parse` supplies —
+    `Props/Json.parse_total`). -/
 inductive Res (α : Type) where
   | ok (a : α)
   | fail
@@ -398,7 +425,7 @@ def numBody (neg : Bool) (s t : List Nat) : Res (Json × List Nat) :=
           else
             match mkNum neg (digitsVal (ip ++ fp)) (ip.length + fp.length) (ex - (fp.length : Int)) with
             | some (n, k) => .ok (.number n k, t3)
-            | none => .unsup
+            | none => .ok (.numberX (s.take (s.length - t3.length)), t3)   -- value not modelled: spelling kept
 
 /-- `parse_number_value` on a text without stop characters: `strtod`, the
     `ERANGE`/`HUGE_VAL` test, `is_decimal` on the consumed text and
@@ -506,6 +533,21 @@ def parseElems : Nat → Nat → List Nat → Res (List Json × List Nat)
           else .fail
 end
 
+mutual
+/-- no `numberX` inside: every number has its exact value -/
+def Json.exact : Json → Bool
+  | .numberX _ => false
+  | .array vs => Json.exactList vs
+  | .object ms => Json.exactMembers ms
+  | _ => true
+def Json.exactList : List Json → Bool
+  | [] => true
+  | v :: vs => Json.exact v && Json.exactList vs
+def Json.exactMembers : Members → Bool
+  | [] => true
+  | (_, v) :: ms => Json.exact v && Json.exactMembers ms
+end
+
 /-- The text `parse_value` runs on. -/
 def prepare (s : List Nat) : List Nat := stripComments (cstr s)
 
@@ -514,7 +556,7 @@ def prepare (s : List Nat) : List Nat := stripComments (cstr s)
     value is not looked at. -/
 def parse (s : List Nat) : Res Json :=
   match parseValue (2 * (prepare s).length + 1) 0 (prepare s) with
-  | .ok (v, _) => .ok v
+  | .ok (v, _) => if v.exact then .ok v else .unsup
   | .fail => .fail
   | .unsup => .unsup
   | .oof => .fail
@@ -717,6 +759,7 @@ def ser : Json → Nat → List Nat
   | .bool true, _ => [116, 114, 117, 101]
   | .bool false, _ => [102, 97, 108, 115, 101]
   | .number n k, _ => serNumber n k
+  | .numberX _, _ => [48]          -- not modelled (`Writable` excludes it)
   | .string s, _ => serString s
   | .array [], _ => [91, 93]
   | .array (v :: vs), lvl => 91 :: 10 :: (serElems (v :: vs) lvl ++ (indent lvl ++ [93]))
@@ -753,6 +796,7 @@ def wr : Nat → Json → Bool
   | n, .null => n ≤ maxNesting
   | n, .bool _ => n ≤ maxNesting
   | n, .number v k => n ≤ maxNesting && k == 0 && v.natAbs ≤ pow2_53
+  | _, .numberX _ => false
   | n, .string s => n ≤ maxNesting && strOk s
   | n, .array vs => n ≤ maxNesting && wrElems (n + 1) vs
   | n, .object ms => n ≤ maxNesting && keysNodup ms && wrMembers (n + 1) ms
